@@ -163,7 +163,11 @@ def sami_read_strategy(tier):
     def build(draw):
         langs = draw(multi_strategy())
         via_attr = [draw(st.booleans()) and len(l["code"]) == 2 for l in langs]
-        return {"langs": langs, "via_attr": via_attr, "tier": tier}
+        # paragraphs that name their language by attribute may carry a class as well - a pure
+        # styling class or an undeclared one - written before or after the lang attribute
+        xcls = [draw(st.sampled_from([None, None, "speaker", "nosuch"])) if v else None for v in via_attr]
+        xfirst = [draw(st.booleans()) for _ in langs]
+        return {"langs": langs, "via_attr": via_attr, "xcls": xcls, "xfirst": xfirst, "tier": tier}
     return build()
 
 
@@ -200,6 +204,19 @@ def check_sami_read(case, rec):
             syncs.append((str(ms), [p]))
     classes = [("C" + l["code"].replace("-", "").upper(), l["code"], []) for li, l in enumerate(langs)
                if not case["via_attr"][li]]
+    xcls = case.get("xcls") or [None] * len(langs)
+    if any(xcls):
+        classes.append(("speaker", None, [("color", "yellow")]))
+        by_code = {l["code"]: li for li, l in enumerate(langs)}
+        for _, ps in syncs:
+            for q in ps:
+                li = by_code.get(q.get("lang"))
+                if li is not None and xcls[li]:
+                    if case["xfirst"][li]:
+                        q["cls"] = xcls[li]
+                    else:
+                        q["attrs"] = [("class", xcls[li])]
+        rec.label("lang-attribute-with-class")
     doc = S.sami_doc(syncs, classes)
     first = []
     for _, ps in syncs:
@@ -247,9 +264,14 @@ def write_strategy(tier):
     def build(draw):
         langs = draw(multi_strategy(allow_prefix=True))
         codes = [l["code"] for l in langs]
+        if len(langs) >= 2 and draw(st.integers(0, 3)) == 0:
+            # a language without captions (API-built sets, or what retiming leaves behind)
+            langs[draw(st.integers(0, len(langs) - 1))]["cues"] = []
         prev = draw(st.one_of(st.none(), st.none(), multi_strategy(allow_prefix=True)))
         return {"langs": langs, "writer": draw(st.sampled_from(["dfxp", "dfxp-legacy", "dfxp-single", "sami", "webvtt"])),
-                "pick": draw(st.sampled_from([None] + codes + ["xx"])), "prev": prev}
+                "pick": draw(st.sampled_from([None] + codes + ["xx"] + [c.lower() for c in codes] +
+                                             [c.upper() for c in codes] + [c.split("-")[0] for c in codes])),
+                "prev": prev}
     return build()
 
 
@@ -285,15 +307,23 @@ def check_write(case, rec):
             doc = P.parse_dfxp(out)
         except P.RefParseError as e:
             raise Violation(f"{w}: {e}")
+        alt = None
         if pick in codes:
             exp = [pick]
         elif pick and w == "dfxp-legacy":
             exp = None      # legacy writer documents a fallback to some language: not judged
         else:
             exp = codes
+            ci = [c for c in codes if pick and c.lower() == pick.lower()]
+            if len(ci) == 1:
+                alt = ci    # a case-insensitive match writing exactly that language is accepted
+                rec.label("force-in-other-case")
         if exp is not None:
             got = [d["lang"] for d in doc["divs"]]
-            require(got == exp, lambda: f"{w}(force={pick!r}): divs for {got}, expected {exp}")
+            require(got == exp or (alt is not None and [g.lower() for g in got] == [a.lower() for a in alt]),
+                    lambda: f"{w}(force={pick!r}): divs for {got}, expected {exp}")
+            if got != exp:
+                by = dict(by, **{d["lang"]: by[alt[0]] for d in doc["divs"]})
             for d in doc["divs"]:
                 g = [(P.ttml_clock_ms_strict(p["begin"]), " ".join("".join(p["lines"]).split())) for p in d["ps"]]
                 e = [((c["start"] // 1000) * 1000, c["text"]) for c in by[d["lang"]]["cues"]]
